@@ -216,12 +216,19 @@ func runC04(args []string) {
 				hows := []struct {
 					how    string
 					chunks []int
-				}{{"unmarshal", nil}, {"frombytes", nil}, {"decode", nil}, {"make", nil}, {"decode", []int{1}}, {"decode", []int{3}}}
+					kind   string
+				}{{"unmarshal", nil, ""}, {"frombytes", nil, ""}, {"decode", nil, ""}, {"make", nil, ""}, {"decode", []int{1}, ""}, {"decode", []int{3}, ""},
+					{"decode", nil, "bytes.Reader"}, {"decode", nil, "bufio"}, {"decode", nil, "bytes.Buffer"}, {"decode", nil, "file"}}
+				// a trailer after the record makes over-consumption visible with every reader kind
+				trailer := "a1b2c3d4e5f60718293a4b5c6d7e8f90"
 				var cases []decCase
 				for _, h := range hows {
 					dc := decCase{Type: name, Hex: er.Marshal, How: h.how}
-					if h.chunks != nil {
-						dc.Reader = map[string]any{"chunks": h.chunks}
+					if h.how == "decode" || h.how == "make" {
+						dc.Hex = er.Marshal + trailer
+					}
+					if h.chunks != nil || h.kind != "" {
+						dc.Reader = map[string]any{"chunks": h.chunks, "kind": h.kind}
 					}
 					cases = append(cases, dc)
 				}
@@ -233,7 +240,7 @@ func runC04(args []string) {
 						path = "stream"
 					}
 					r.Eval(fmt.Sprintf("%s|%s|%d", pr.v.name, name, vi))
-					loc := map[string]string{"variant": pr.v.name, "context": ctxName, "decoder": h.how, "path": path}
+					loc := map[string]string{"variant": pr.v.name, "context": ctxName, "decoder": h.how, "path": path, "reader": h.kind}
 					detail := map[string]any{"variant": pr.v.name, "record": name, "v2_value": v, "v2_bytes": er.Marshal, "expected_under_v1": want, "decoder": h.how, "chunks": h.chunks,
 						"v1_schema": pr.p1.Text, "v2_schema": pr.p2.Text}
 					if o.Outcome != "ok" {
